@@ -7,7 +7,7 @@ TIERS = {"quick": dict(runs=160, steps=30), "thorough": dict(runs=2400, steps=40
 
 
 def store_small(ck):
-    cfg = write_cfg(['Mode = "small"', "NRuns = 0", "NSteps = 0", "MaxCopies = 2"],
+    cfg = write_cfg(['Mode = "small"', "NRuns = 0", "NSteps = 0", "MaxCopies = 2", "Faults = FALSE"],
                     invariants=["TypeOK", "ListIsMatch"],
                     properties=["ReadOnlyUnchanged", "Isolation", "ErrorsChangeNothing", "CreateAddsOne",
                                 "DeleteRemovesMatching", "TransactExact"])
@@ -18,9 +18,10 @@ def store_small(ck):
     ck.extra["store_exhaustive_states"] = r.distinct
 
 
-def histories(ck, tier, runs=None, steps=None):
+def histories(ck, tier, runs=None, steps=None, faults=False):
     p = TIERS[tier]
-    cfg = write_cfg(['Mode = "gen"', "NRuns = %d" % (runs or p["runs"]), "NSteps = %d" % (steps or p["steps"]), "MaxCopies = 2"])
+    cfg = write_cfg(['Mode = "gen"', "NRuns = %d" % (runs or p["runs"]), "NSteps = %d" % (steps or p["steps"]), "MaxCopies = 2",
+                     "Faults = %s" % ("TRUE" if faults else "FALSE")])
     r = tlc("Store", "gen.cfg", files={"gen.cfg": cfg}, extra=["-seed", str(seed())], workers=8)
     ck.add_tlc(r)
     hs = sorted([l for l in r.lines if "run" in l], key=lambda h: h["run"])
@@ -40,7 +41,8 @@ UNIVERSE = []
 
 
 def replay(binary, hs, page_size=2, mirror=False, probes=False):
-    inp = {"histories": [{"run": h["run"], "steps": [{"op": s["op"], "nid": s["nid"], "args": s["args"]} for s in h["steps"]]} for h in hs],
+    inp = {"histories": [{"run": h["run"], "steps": [{"op": s["op"], "nid": s["nid"], "args": s["args"], "fault": "storage-fault" in s["reply"]}
+                                                     for s in h["steps"]]} for h in hs],
            "page_size": page_size, "mirror": mirror, "probes": probes, "universe": UNIVERSE}
     recs = run_harness(binary, "store", inp)
     return {r["h"]: r for r in recs}
@@ -63,6 +65,8 @@ def compare(ck, hs, obs, want):
             other = "B" if st["nid"] == "A" else "A"
             exp_after = {n: canon_bag(st["after"][n]) for n in ("A", "B")}
             got_after = {n: canon_bag(ob["after"][n] or []) for n in ("A", "B")}
+            if "storage-fault" in st["reply"] and not ob.get("fault_hit"):
+                raise Inconclusive("an injected storage fault did not hit any statement (history %d step %d)" % (h["run"], si))
             if "store" in want:
                 if ob["ok"] != st["ok"]:
                     ck.violation("%s over %s: accepted=%s, the store model says %s" % (st["op"], ob["transport"], ob["ok"], st["ok"]),
@@ -107,9 +111,10 @@ def c04(tier):
     ck = Check("C04", tier)
     binary = build_harness()
     store_small(ck)
-    hs = histories(ck, tier)
+    hs = histories(ck, tier, faults=True)
     obs = replay(binary, hs)
     compare(ck, hs, obs, {"store"})
+    ck.extra["writes_with_injected_storage_fault"] = sum(1 for h in hs for s in h["steps"] if "storage-fault" in s["reply"])
     ck.sample({"history": hs[0]["run"], "steps": [{"op": s["op"], "nid": s["nid"], "args": s["args"], "ok": s["ok"]} for s in hs[0]["steps"][:6]]})
     ck.extra["histories"] = len(hs)
     ck.rule = ("TLC draws API histories from Store.tla with the reply and both networks' multisets after every step; the harness "
